@@ -45,7 +45,9 @@ def mc_targets(chk, scope, laws=True):
             chk.model_violation("MCTargets/" + scope, r)
         vlib.require_ok(r, "MCTargets " + scope)
         chk.add_model("MCTargets", r, scope)
-        cases.extend(r.printed("CASE"))
+        # kept as compact JSON strings (hundreds of thousands in the thorough tier), TLC's output released at once
+        cases.extend(json.dumps(c, separators=(",", ":")) for c in r.printed("CASE"))
+        r.out = ""
     if not cases:
         raise vlib.ToolError("MCTargets emitted no cases")
     return cases
@@ -326,7 +328,7 @@ def run(pid, tier):
         cases_path = os.path.join(tmp, "cases.ndjson")
         with open(cases_path, "w") as f:
             for c in cases:
-                f.write(json.dumps(c) + "\n")
+                f.write((c if isinstance(c, str) else json.dumps(c)) + "\n")
         # ---- spec -> impl: every enumerated configuration through the real code
         # quick: each configuration under 2 of the 5 naming schemes (1 for the record-heavy grouping checks), rotating
         rotate = ("1" if kind == "groups" else "2") if tier == "quick" else "0"
@@ -339,7 +341,7 @@ def run(pid, tier):
             ep = os.path.join(tmp, "cases2.ndjson")
             with open(ep, "w") as f:
                 for c in extra_cases:
-                    f.write(json.dumps(c) + "\n")
+                    f.write((c if isinstance(c, str) else json.dumps(c)) + "\n")
             st = vinproc(bins, ["cfgcases", "--cases", ep, "--out", os.path.join(tmp, "o1b"), "--fixtures", os.path.join(tmp, "fxb"),
                                 "--kinds", kind, "--threads", str(vlib.NCPU), "--seed", str(chk.seed), "--rotate", "1"])
             evals += st["evaluations"]
